@@ -1813,6 +1813,31 @@ func main() {
 		nMbox++
 		mu.Unlock()
 	})
+	// long names: the modified UTF-7 form crosses the sizes at which the transformer's output buffer
+	// is (re)allocated (128, 256, 512 bytes for x/text's transform.String) with every kind of symbol
+	// astride the boundary
+	var long []string
+	for _, x := range []string{"\u00e9", "&", "/", "\u65e5\u672c", "\u00e9&\u00e9", "\U0001f600", "-", "&-"} {
+		for _, base := range []int{128, 256, 512} {
+			for k := base - 14; k <= base+2; k++ {
+				for _, tail := range []string{"", "b", "/bbbbbbbbbb"} {
+					long = append(long, strings.Repeat("a", k)+x+tail)
+				}
+			}
+		}
+	}
+	for _, unit := range []string{"\u00e9", "\u65e5", "\u00e9/", "a\u00e9", "&", "\U0001f600"} {
+		for n := 20; n <= 70; n++ {
+			long = append(long, strings.Repeat(unit, n))
+		}
+		long = append(long, strings.Repeat(unit, 200))
+	}
+	vk.Parallel(len(long), func(i int) {
+		x := getCtx()
+		checkMailbox(x, long[i])
+		putCtx(x)
+	})
+	run.Set("mailbox_long_names", int64(len(long)))
 	inb := inboxVariants()
 	vk.Parallel(len(inb), func(i int) {
 		x := getCtx()
@@ -1949,7 +1974,7 @@ func main() {
 		}
 	}
 
-	run.Rule = "every byte string up to the length bound over a 16-symbol alphabet derived from the branches of Encoder.validQuoted/Quoted/stringLiteral and Decoder.Quoted/Literal (7-bit, SP, the two quoted-specials, CR, LF, NUL, DEL, '{', '(', ')', '%', ']', the two halves of a valid 2-byte rune, an invalid UTF-8 byte) plus a threshold family (lengths 4093..4097 and 8192 with each symbol first/middle/last) written under 16 configurations (2 directions x QuotedUTF8 x LiteralMinus x LiteralPlus), each distinct byte sequence per direction read by 5 readers (the decoder has no mode, identical bytes are decoded once per side), and again with the continuation hook absent / returning nil; every valid UTF-8 mailbox name up to the rune bound over a 12-rune alphabet plus INBOX casings and neighbours; system flags / attributes in 4 casings, keywords, one flag per atom-special and a malformed set; boundary numbers through every compatible reader; every number set reachable by <=3 insertions over 7 endpoints in both flavours, empty sets, SEARCHRES; every ordered tree up to the node bound with 5 leaf kinds through 2 writers x 2 readers; depth chains around the cap of 1000. non-trivial = distinct (string, wire form) pairs whose encoding needs an escape, 8-bit quoting or a literal; distinct names with UTF-7/escape/INBOX fold; distinct folded flags; distinct number-set texts with ':' ',' '*' '$'; trees with depth >= 2 or a leaf that needs escaping/literal"
+	run.Rule = "every byte string up to the length bound over a 16-symbol alphabet derived from the branches of Encoder.validQuoted/Quoted/stringLiteral and Decoder.Quoted/Literal (7-bit, SP, the two quoted-specials, CR, LF, NUL, DEL, '{', '(', ')', '%', ']', the two halves of a valid 2-byte rune, an invalid UTF-8 byte) plus a threshold family (lengths 4093..4097 and 8192 with each symbol first/middle/last) written under 16 configurations (2 directions x QuotedUTF8 x LiteralMinus x LiteralPlus), each distinct byte sequence per direction read by 5 readers (the decoder has no mode, identical bytes are decoded once per side), and again with the continuation hook absent / returning nil; every valid UTF-8 mailbox name up to the rune bound over a 12-rune alphabet plus INBOX casings and neighbours plus 1500 long names whose UTF-7 form crosses 128/256/512 bytes with each symbol kind astride the boundary; system flags / attributes in 4 casings, keywords, one flag per atom-special and a malformed set; boundary numbers through every compatible reader; every number set reachable by <=3 insertions over 7 endpoints in both flavours, empty sets, SEARCHRES; every ordered tree up to the node bound with 5 leaf kinds through 2 writers x 2 readers; depth chains around the cap of 1000. non-trivial = distinct (string, wire form) pairs whose encoding needs an escape, 8-bit quoting or a literal; distinct names with UTF-7/escape/INBOX fold; distinct folded flags; distinct number-set texts with ':' ',' '*' '$'; trees with depth >= 2 or a leaf that needs escaping/literal"
 	run.Exhaustive = true
 	run.Assume("negative int64 is not an IMAP number64 (Encoder.Number64 carries a TODO to disallow it): excluded")
 	run.Assume("flags/attributes containing 8-bit bytes: RFC-illegal but the encoder and decoder are deliberately liberal; only the round trip is checked, their acceptance is not reported")
